@@ -384,6 +384,14 @@ func (s *Sim) onSend(f *common.OutFrame) error {
 			s.nextChan++
 			ch = 1 + (s.nextChan*37)%250
 		}
+		if ch < 0 && ft.Act == "ok" {
+			// the gateway hands out the channel the client had before (real gateways commonly do)
+			ch = s.curChan
+			if s.nextChan == 0 {
+				ch = 38
+			}
+			s.nextChan++
+		}
 		s.mu.Unlock()
 		switch ft.Act {
 		case "ok":
